@@ -20,7 +20,7 @@ from .core import Inconclusive, Repo, src_of
 from .fold import by_name, feasible, replace_atoms
 from .normal import C, Poly, V, show
 from .pyflow import Path, PyFlow, single_atom, tpl_shape
-from .pymodel import get_model
+from .pymodel import get_model, super_targets
 
 Shape = Tuple[Any, ...]  # ("Int",) | ("Array", inner) | ("Alias", inner) | ("Enum",) ...
 
@@ -159,10 +159,19 @@ def block_flow(repo: Repo, block_cls: str, rel: str, fmt_cls: str, fmt_rel: str,
             return False
         return True
 
+    m = get_model(repo)
+    funcs: Dict[str, ast.FunctionDef] = {}
+    for cn_, rl_ in ((block_cls, rel), (fmt_cls, fmt_rel)):
+        for k in m.mro(m.cls(cn_, rl_)):
+            mod = m.mods.get(k.rel)
+            if mod is not None:
+                for name, fi in mod.funcs.items():
+                    if name not in keep:
+                        funcs.setdefault(name, fi.node)
     prims = tuple(primitives) + ("push", "push_string", "push_empty_line", "push_comment", "push_docstring", "push_definition_comments", "push_definition_docstring", "push_location_doc")
     return PyFlow(
-        funcs={}, methods=bm, typed={"self": bm, "self.formatter": fm}, consts=consts, inline_filter=flt, primitives=prims, pure=tuple(pure),
-        decide=class_decider(repo, subjects, flags), names={}, max_depth=8, havoc_on=(), max_paths=2000,
+        funcs=funcs, methods=bm, typed={"self": bm, "self.formatter": fm}, consts=consts, inline_filter=flt, primitives=prims, pure=tuple(pure),
+        decide=class_decider(repo, subjects, flags), names={}, max_depth=8, havoc_on=(), max_paths=2000, super_targets=super_targets(m, m.cls(block_cls, rel)),
     )
 
 
@@ -194,7 +203,9 @@ def pushed(p: Path, repl: Optional[Callable[[Tuple[Any, ...]], Optional[Poly]]] 
         if e.name == "push_string":
             # appended to the line pushed last
             sep = e.kw.get("separator", e.args[1] if len(e.args) > 1 else None)
-            sep_s = " " if sep is None else (tpl_shape(sep, lambda x: render_hole(x, repl)) or " ")
+            sep_s = " " if sep is None else tpl_shape(sep, lambda x: render_hole(x, repl))
+            if sep_s is None:
+                sep_s = " "
             if out:
                 out[-1] = (out[-1][0], out[-1][1] + sep_s + text)
             else:
@@ -221,3 +232,97 @@ def emitted(flow: PyFlow, fn: ast.FunctionDef, init: Optional[Dict[str, Poly]] =
     ok, unfolded = feasible(paths, repl or (lambda a: None))
     ok = [p for p in ok if p.done != "raise"]
     return [pushed(p, repl) for p in ok], unfolded, ok
+
+
+FORMATTERS = {
+    "impls/py/renderer.py": ("PyFormatter", "impls/py/formatter.py"),
+    "impls/go/renderer.py": ("GoFormatter", "impls/go/formatter.py"),
+    "impls/c/renderer_c.py": ("CFormatter", "impls/c/formatter.py"),
+    "impls/c/renderer_h.py": ("CFormatter", "impls/c/formatter.py"),
+}
+
+HOLE = "\x00"
+
+
+def class_emissions(repo: Repo, relsfx: str, method: str = "render", named: Any = False) -> Dict[str, List[str]]:
+    """For every class of a renderer module that defines `method` itself:
+    the text of every line the method can push on any path (holes are HOLE;
+    leading spaces include the indent= keyword relative to the block's own
+    indent).  A class the engine cannot walk is absent from the result."""
+    key = ("class_emissions", relsfx, method, named)
+    cache = repo.cache if hasattr(repo, "cache") else None
+    if cache is not None and key in cache:
+        return cache[key]
+    m = get_model(repo)
+    mod = m.mod(relsfx)
+    fcn, frel = FORMATTERS[relsfx]
+    out: Dict[str, List[str]] = {}
+    for ci in mod.classes.values():
+        fi = ci.methods.get(method)
+        if fi is None:
+            continue
+        try:
+            flow = block_flow(repo, ci.name, relsfx, fcn, frel, {}, keep=tuple(n for n in m.cls(fcn, frel).methods) + ("message_field_name", "message_field_type", "message_field_default_value"))
+            paths = flow.run(fi.node, {"self": V("self")})
+        except Inconclusive:
+            continue
+        lines: List[str] = []
+        hole_fn = (lambda x: show(x)) if named == "plain" else (lambda x: "{" + show(x) + "}") if named else (lambda x: HOLE)
+        for p_ in paths:
+            if p_.done == "raise":
+                continue
+            cur: List[str] = []
+            for e in p_.effects:
+                if e.kind != "call" or e.name not in ("push", "push_string") or not e.args:
+                    continue
+                t = tpl_shape(e.args[0], hole_fn)
+                if t is None:
+                    t = hole_fn(e.args[0])
+                if e.name == "push_string":
+                    sep = e.kw.get("separator", e.args[1] if len(e.args) > 1 else None)
+                    sep_s = " " if sep is None else tpl_shape(sep, hole_fn)
+                    if sep_s is None:
+                        sep_s = " "
+                    if cur:
+                        cur[-1] = cur[-1] + sep_s + t
+                    else:
+                        cur.append(t)
+                    continue
+                ind = e.kw.get("indent", e.args[1] if len(e.args) > 1 else None)
+                if ind is not None and not (single_atom(ind) is not None and single_atom(ind)[0] == "none"):
+                    d = (ind - V("self.indent")).const_value()
+                    if d is not None and d > 0:
+                        t = " " * int(d) + t
+                cur.append(t)
+            for t in cur:
+                if t not in lines:
+                    lines.append(t)
+        out[ci.name] = lines
+    if cache is not None:
+        cache[key] = out
+    return out
+
+
+def formatter_returns(repo: Repo, relsfx: str, cls: str, meth: str) -> List[str]:
+    """Texts a formatter method can return (one per path), holes replaced by
+    the source-like rendering of their values; `format_*` methods stay
+    opaque (they are the vocabulary provenance is judged in), private helpers
+    and module functions are inlined."""
+    from .flows import compiler_flow
+
+    m = get_model(repo)
+    c = m.cls(cls, relsfx)
+    fi = m.lookup(c, meth)
+    if fi is None:
+        raise Inconclusive(f"{cls}.{meth} vanished")
+    flow = compiler_flow(repo, cls, relsfx, module_funcs=True, inline=lambda name, fn: not name.startswith("format_"), max_depth=8)
+    out: List[str] = []
+    for p_ in flow.run(fi.node, {"self": V("self")}):
+        if p_.done != "return" or p_.ret is None:
+            continue
+        t = tpl_shape(p_.ret, lambda x: show(x))
+        if t is None:
+            raise Inconclusive(f"{cls}.{meth} returns `{show(p_.ret)}`: not a text")
+        if t not in out:
+            out.append(t)
+    return out
